@@ -490,7 +490,15 @@ class Parser:
     def parse_filter(self, stream: TokenStream) -> Filter:
         tok = stream.next_token()
         expr = self.parse_filter_selector(stream)
+        self._raise_for_uncompared(expr, tok)
+        return Filter(env=self.env, token=tok, expression=BooleanExpression(expr))
 
+    def _raise_for_uncompared(self, expr: FilterExpression, tok: Token) -> None:
+        """Raise if _expr_ can't be used as a test: a literal or a ValueType function.
+
+        This applies to a whole filter expression and to every operand of `!`,
+        `&&` and `||`, with or without parentheses.
+        """
         if self.env.well_typed and isinstance(expr, FunctionExtension):
             func = self.env.function_extensions.get(expr.name)
             if (
@@ -508,8 +516,6 @@ class Parser:
                 "function expressions must be compared",
                 token=tok,
             )
-
-        return Filter(env=self.env, token=tok, expression=BooleanExpression(expr))
 
     def parse_boolean(self, stream: TokenStream) -> FilterExpression:
         if stream.current.kind == TOKEN_TRUE:
@@ -535,10 +541,9 @@ class Parser:
     def parse_prefix_expression(self, stream: TokenStream) -> FilterExpression:
         tok = stream.next_token()
         assert tok.kind == TOKEN_NOT
-        return PrefixExpression(
-            operator="!",
-            right=self.parse_filter_selector(stream, precedence=self.PRECEDENCE_PREFIX),
-        )
+        right = self.parse_filter_selector(stream, precedence=self.PRECEDENCE_PREFIX)
+        self._raise_for_uncompared(right, tok)
+        return PrefixExpression(operator="!", right=right)
 
     def parse_infix_expression(
         self, stream: TokenStream, left: FilterExpression
@@ -553,18 +558,8 @@ class Parser:
             self._raise_for_non_comparable_function(right, tok)
 
         if operator not in self.INFIX_LITERAL_OPERATORS:
-            if isinstance(left, (Literal, Nil)):
-                raise JSONPathSyntaxError(
-                    "filter expression literals outside of "
-                    "function expressions must be compared",
-                    token=tok,
-                )
-            if isinstance(right, (Literal, Nil)):
-                raise JSONPathSyntaxError(
-                    "filter expression literals outside of "
-                    "function expressions must be compared",
-                    token=tok,
-                )
+            self._raise_for_uncompared(left, tok)
+            self._raise_for_uncompared(right, tok)
 
         return InfixExpression(left, operator, right)
 
